@@ -3,7 +3,7 @@
    correspondence (the model computes the ledger sum of its element store after every block) and by
    the Go-side oracle over the exported diffs. *)
 From Coq Require Import ZArith List Bool.
-From Sia Require Import Prim.Result Prim.Tok Policy.Model Ledger.Types Ledger.Mid Ledger.Validate Ledger.Apply Ledger.Proofs.
+From Sia Require Import Prim.Result Prim.Tok Policy.Model Ledger.Types Ledger.Mid Ledger.Validate Ledger.Apply Ledger.Proofs Ledger.Flow.
 Import ListNotations.
 Open Scope Z_scope.
 
@@ -25,3 +25,16 @@ Theorem C01_revision_keeps_total : forall net vt s m e rev, validate_revision ne
   exists cur, sco_value (c_renter rev) + sco_value (c_host rev) = sco_value (c_renter cur) + sco_value (c_host cur) /\ (cur = v2_fc e \/ exists i d, elem_idx m (v2_id e) = Some i /\ nth_error (m_v2fces m) i = Some d /\ d_v2_rev d = Some cur).
 Proof. intros net vt s m e rev Hv. destruct (revision_invariants net vt s m e rev Hv) as (cur & A & B & _). eauto. Qed.
 Print Assumptions C01_revision_keeps_total.
+
+(* the value flow of every accepted v2 transaction: the siacoin inputs spent plus the contract value released by its
+   resolutions equal the outputs created, the value locked in new contracts (formations and renewals) with their tax,
+   the miner fee, what the resolutions pay out, and what missed contracts forfeit. (forfeited is host value minus missed
+   host value: it is negative exactly for a contract whose missed value exceeds its host value, the legacy-window case
+   recorded as known finding F11.) *)
+Theorem C01_v2_value_flow : forall H net vt pt se sd s m t revised resolved,
+  validate_v2_siacoins H net vt pt se sd s m t = Ok tt ->
+  check_resolutions H vt s m revised (t2_res t) resolved = Ok tt ->
+  sum_sci t + zsum (map released (t2_res t)) =
+  sum_sco t + sum_fc t + zsum (map relocked (t2_res t)) + t2_fee t + zsum (map paid_out (t2_res t)) + zsum (map forfeited (t2_res t)).
+Proof. exact v2_value_flow. Qed.
+Print Assumptions C01_v2_value_flow.
